@@ -69,10 +69,11 @@ func init() {
 		{"MO", []string{"MO-range", "MO-source"}},
 		{"LX", []string{"LX-total", "LX-swo"}},
 		{"FL", []string{"FL-reader-fresh"}},
-		{"EF", []string{"EF-globals", "EF-immut"}},
+		{"EF", []string{"EF-globals", "EF-immut", "EF-opts"}},
 		{"EQ", []string{"EF-fresh-merge"}},
-	}, map[string]int{"MO-range": 6, "MO-source": 1, "LX-total": 1, "FL-reader-fresh": 1},
-		"Every place where Go's randomised map order could reach an output is a range over a map: all of them (in stack, webstack, internal) are enumerated from the type-checked syntax trees and each is classified as any-match (result independent of order), collect-then-totally-sort (the collected slice is sorted by a total order before its first other use; for the buckets: by a comparator that ends in a unique key, LX-total), or the bucket lookup whose first match is unique because similarity is an equivalence (re-using the EQ/AG verdicts of this run); anything else is a violation. Also: no math/rand, clock (other than the exempt HTML timestamp), select, goroutine or pointer formatting in the library (MO-source); the line reader is a fresh local per call and no package-level variable is written after init (FL-reader-fresh, EF-globals), so nothing survives from an earlier call. The same snapshot gives the same aggregation every time it is aggregated: aggregation and rendering never write to the snapshot and merges build new values (EF-immut, EF-fresh-merge), so an earlier call cannot change what a later one sees.",
+		{"RB", []string{"RB-panic", "RB-slice", "RB-inv"}},
+	}, map[string]int{"MO-range": 6, "MO-source": 1, "LX-total": 1, "FL-reader-fresh": 1, "EF-opts": 1, "RB-panic": 1, "RB-inv": 1},
+		"Every place where Go's randomised map order could reach an output is a range over a map: all of them (in stack, webstack, internal) are enumerated from the type-checked syntax trees and each is classified as any-match (result independent of order), collect-then-totally-sort (the collected slice is sorted by a total order before its first other use; for the buckets: by a comparator that ends in a unique key, LX-total), or the bucket lookup whose first match is unique because similarity is an equivalence (re-using the EQ/AG verdicts of this run); anything else is a violation. Also: no math/rand, clock (other than the exempt HTML timestamp), select, goroutine or pointer formatting in the library (MO-source); the line reader is a fresh local per call and no package-level variable is written after init (FL-reader-fresh, EF-globals), so nothing survives from an earlier call. The same snapshot gives the same aggregation every time it is aggregated: aggregation and rendering never write to the snapshot and merges build new values (EF-immut, EF-fresh-merge), so an earlier call cannot change what a later one sees; the caller's Opts — slices and maps included — is only read, so the next call with the same Opts starts from the same settings (EF-opts). How the io.Reader happens to chunk the same bytes is the one scheduling input of a scan: the reader's cursor invariant holds for every sequence of Read results, so no slice expression or explicit panic of the line reader depends on the chunking (RB-inv, RB-slice, RB-panic).",
 		"sort.Strings/Ints/Sort produce a unique result for a total order; text/template visits map keys in sorted order; os/file-system contents are part of the input")
 	p("C14", []RuleSel{
 		{"EF", []string{"EF-immut", "EF-globals", "EF-opts", "EF-tpl"}},
@@ -99,7 +100,7 @@ func init() {
 		{"EQ", []string{"EQ-key", "EQ-lift"}},
 		{"AG", []string{"AG-merge", "AG-once"}},
 		{"LX", []string{"LX-len", "LX-enum"}},
-	}, map[string]int{"WEB-status": 3, "WEB-method": 1, "WEB-validate": 3, "WEB-grow": 3, "WEB-opts": 1},
+	}, map[string]int{"WEB-status": 3, "WEB-method": 1, "WEB-validate": 3, "WEB-grow": 3, "WEB-opts": 1, "WEB-lock": 1},
 		"The structural half of the handler contract is decided over all SSA paths of SnapshotHandler: the method test precedes everything, a non-GET gets exactly one 405, every invalid parameter value ends in exactly one 4xx reply followed by return, a failed snapshot in a 500, and the page (the aggregated snapshot written to the response) is produced only on the path without any error reply; options are created per request (WEB-opts) and no package-level state of webstack/stack is written (EF-globals), so requests cannot influence each other; the capture loop strictly grows the buffer to min(2n, maxmem) until the dump fits or maxmem is reached (WEB-grow, LP); every header and frame shape runtime.Stack prints is accepted by the parser patterns (RX); aggregation and rendering of the page cannot panic on slice bounds (BN, with the equal-shape preconditions of merge and less discharged by EQ-lift/EQ-key/AG-merge/LX-len). Not decided: anything about the live runtime, goroutine churn or request interleavings.",
 		"net/http serialises nothing for us: handler re-entrancy rests on EF-globals; html/template execution is concurrency-safe")
 	p("C19", []RuleSel{
@@ -115,8 +116,8 @@ func init() {
 		{"FL", []string{"LOC-gate"}},
 		{"BN", []string{"BN-neg"}},
 		{"MO", []string{"MO-range"}},
-	}, map[string]int{"LOC-branch": 5, "LOC-sep": 3, "LOC-search": 2, "LOC-testmain": 1, "LOC-consts": 1, "LOC-order": 1, "LOC-probe": 1, "LOC-all": 3},
-		"Claimed narrowly: the structural clauses. Every match branch of Call.updateLocations pairs (root kind, separator, Location constant, local-path construction): the relative path is what follows the matched prefix, the local path ends with the relative path, the class is assigned only while still unknown (keeps the _testmain.go special case), and the no-match path writes nothing (LOC-branch); roots are matched only at a path-component boundary in updateLocations, hasPrefix and hasSrcPrefix (LOC-sep); the upward go.mod search covers every ancestor directory and the split search every split point (LOC-search); the directory constants agree between the sibling functions (LOC-consts); root arithmetic cannot go negative (BN-neg); roots are tried in a fixed order, nested ones first (MO). Not decided: which roots are found for a given disk layout (I/O-dependent search), i.e. that every frame whose file exists locally is mapped to it.",
+	}, map[string]int{"LOC-branch": 5, "LOC-sep": 3, "LOC-search": 2, "LOC-testmain": 1, "LOC-consts": 1, "LOC-order": 1, "LOC-probe": 1, "LOC-all": 3, "LOC-root-suffix": 3},
+		"Claimed narrowly: the structural clauses. Every match branch of Call.updateLocations pairs (root kind, separator, Location constant, local-path construction): the relative path is what follows the matched prefix, the local path ends with the relative path, the class is assigned only while still unknown (keeps the _testmain.go special case), and the no-match path writes nothing (LOC-branch); roots are matched only at a path-component boundary in updateLocations, hasPrefix and hasSrcPrefix (LOC-sep); the upward go.mod search covers every ancestor directory and the split search every split point (LOC-search); the directory constants agree between the sibling functions (LOC-consts); a remote root is recorded from a probe of <local root>/src or /pkg/mod only when the remote prefix the probe returns ends with that same directory, and without it, so a file whose tail merely coincides with a file below the local root cannot install a root that explains none of its frames (LOC-root-suffix); root arithmetic cannot go negative (BN-neg); roots are tried in a fixed order, nested ones first (MO). Not decided: which roots are found for a given disk layout (I/O-dependent search), i.e. that every frame whose file exists locally is mapped to it.",
 		"the file system answers isFile/ReadFile truthfully")
 	p("C17", []RuleSel{
 		{"HT", []string{"HT-*"}},
@@ -129,8 +130,8 @@ func init() {
 		{"NI", []string{"NI-*"}},
 		{"EF", []string{"EF-immut"}},
 		{"EQ", []string{"EQ-merge-show", "EQ-sig-scalars", "EF-fresh-merge"}},
-	}, map[string]int{"NI-flow": 1, "NI-width": 3, "NI-split": 2, "NI-all": 2, "NI-header": 2, "NI-creator": 1, "EQ-merge-show": 8},
-		"Colour independence is a non-interference property: palette strings (loads of Palette fields and everything concatenated or formatted from them) may flow only into string concatenation, %s operands of constant formats, returns and writers — never into a comparison, len, index, conversion or a width operand; the one documented exception is the header handed to the filter/match expressions (NI-flow, taint analysis over package internal). NI-width: the widths computed by calcBucketsLengths/calcGoroutinesLengths are the lengths of exactly the two expressions callLine pads with %-*s. NI-split/NI-all: per element both console writers compute the header once, apply filter and match to that very string with opposite polarity, and write header then stack for every element not skipped. NI-header: a header is count/id and state, then the sleep range iff non-empty, the lock marker iff locked, the creator iff known. NI-creator: the creator named in a header is the first frame of the creation stack, the element the HTML sibling shows. What a bucket's block shows (state, sleep range, lock, frames, the elided-frames marker) is the merged signature: the merge rules (EQ-merge-show, EQ-sig-scalars, EF-fresh-merge) decide that every such field, Elided included, is carried into it. Not decided: the exact wording.",
+	}, map[string]int{"NI-flow": 1, "NI-width": 3, "NI-split": 2, "NI-all": 2, "NI-header": 2, "NI-creator": 1, "NI-flags": 4, "EQ-merge-show": 8},
+		"Colour independence is a non-interference property: palette strings (loads of Palette fields and everything concatenated or formatted from them) may flow only into string concatenation, %s operands of constant formats, returns and writers — never into a comparison, len, index, conversion or a width operand; the one documented exception is the header handed to the filter/match expressions (NI-flow, taint analysis over package internal). NI-width: the widths computed by calcBucketsLengths/calcGoroutinesLengths are the lengths of exactly the two expressions callLine pads with %-*s. NI-split/NI-all: per element both console writers compute the header once, apply filter and match to that very string with opposite polarity, and write header then stack for every element not skipped. NI-header: a header is count/id and state, then the sleep range iff non-empty, the lock marker iff locked, the creator iff known. NI-creator: the creator named in a header is the first frame of the creation stack, the element the HTML sibling shows. NI-flags: the expressions the writers apply are the ones given on the command line — each writer's filter/match parameter is fed, call site by call site up to Main, by the caller's parameter of the same role, and on every path of Main the value in that position is the compiled -f (-m) flag when the flag is non-empty and nil when it is empty. What a bucket's block shows (state, sleep range, lock, frames, the elided-frames marker) is the merged signature: the merge rules (EQ-merge-show, EQ-sig-scalars, EF-fresh-merge) decide that every such field, Elided included, is carried into it. Not decided: the exact wording.",
 		"fmt pads by rune count of the uncoloured operands")
 	p("C07", []RuleSel{
 		{"SM", []string{"SM-ref", "SM-progress", "SM-looking-clean", "SM-done-remainder"}},
